@@ -5,6 +5,7 @@ META = {
  "C11": dict(level="proof", explanation="ghost wait counters against the real WaitTimer/Timeout/AXI(Lite)Timeout: forced termination exactly at expiry, transparency before, recovery after; fault point and schedule universally quantified"),
  "C18": dict(level="proof", explanation="combinational postconditions of encoder+decoder with a symbolic error vector, all data words, all single and double flip positions, per data width"),
  "C17": dict(level="proof", explanation="multi-cycle postconditions from an arbitrary register state of the real 8b/10b encoder/decoder pipelines"),
+ "C12": dict(level="proof", explanation="one-step postconditions of the real CSR bank against a layout spec function, all inputs and register states"),
  "C04": dict(level="proof", explanation="hold-until-ready two-cycle postcondition and bounded-response (progress) obligations from every invariant state of the real stream/packet modules"),
 }
 
@@ -31,5 +32,7 @@ CLAIMS["C18"] = _hw("DESIGN.md §3 C18", "For every data width of the grid the r
                     technique="contract-based deductive verification: combinational postconditions on the real FHDL for all data words and symbolic flip positions, SMT portfolio (z3 4.8.12 / z3 5.1 / cvc5)")
 CLAIMS["C17"] = _hw("DESIGN.md §3 C17", "Round trip, code-word weight / running-disparity transitions, invalid detection, run length <= 5 and comma freedom are multi-cycle postconditions of the real Encoder+Decoder proved from an arbitrary register state for all 256 data and 12 control symbols, both disparities, 1-4 words, both bit orders; stalls by clock-enable frame obligations.",
                     technique="contract-based deductive verification: multi-cycle postconditions from an arbitrary state of the real FHDL pipelines, SMT (z3)")
+CLAIMS["C12"] = _hw("DESIGN.md §3 C12", "Per-cycle write / read / strobe / frame / atomic-commit / device-write / field / uniqueness postconditions of the real CSRBank and CSR classes against a layout spec function, for all bus and device input valuations and all register states, on a grid of register sets x bus width x ordering x paging; csr_bus.Interconnect(Shared) read path; fixed-location placement as a labelled bounded stand-in.",
+                    "_sort_gathered_items is only checked by exhaustive small-scope enumeration (bounded, not counted as proved); CSR SRAM windows not covered yet.")
 _NYB = "check not built yet in this session (see DESIGN.md build order); will be claimed when its contracts are committed"
 NOT_APPLICABLE = {p: _NYB for p in ["C%02d" % i for i in range(1, 21)]}
